@@ -220,7 +220,8 @@ func TestVerif_C02_RemoteFaults(t *testing.T) {
 		g0 := runtime.NumGoroutine()
 		m, ep, err := fresh()
 		if err != nil {
-			R.Internal("cannot load the remote epoch: %v", err)
+			// the server is healthy here and the files are the ones the real indexer wrote
+			R.Violation("C02|remote-faults|load-epoch", fmt.Sprintf("the epoch served over HTTP by a healthy server does not load: %v", err), map[string]interface{}{"request": rq.Name})
 			return
 		}
 		srv.arm(nil, 0)
@@ -239,7 +240,7 @@ func TestVerif_C02_RemoteFaults(t *testing.T) {
 				g1 := runtime.NumGoroutine()
 				m, ep, err := fresh()
 				if err != nil {
-					R.Internal("cannot load the remote epoch: %v", err)
+					R.Violation("C02|remote-faults|load-epoch", fmt.Sprintf("the epoch served over HTTP by a healthy server does not load: %v", err), map[string]interface{}{"request": rq.Name})
 					return
 				}
 				srv.arm(f, k)
